@@ -525,6 +525,16 @@ func (c *Ctx) emitsMode(f *Func, sync bool) map[string]bool {
 					for _, a := range gs.Call.Args {
 						if lit, ok := ast.Unparen(a).(*ast.FuncLit); ok {
 							goLits[lit] = true
+						} else if id, ok := ast.Unparen(a).(*ast.Ident); ok {
+							// a local bound to a function literal and handed to the goroutine
+							if obj := g.Info().ObjectOf(id); obj != nil {
+								assignedOnlyFrom(g, obj, func(rhs ast.Expr, idx, cnt int) bool {
+									if l, ok := ast.Unparen(rhs).(*ast.FuncLit); ok {
+										goLits[l] = true
+									}
+									return true
+								})
+							}
 						}
 					}
 				}
